@@ -72,6 +72,8 @@ from . import simnet as S
 
 NODES = ["Alice", "Bob", "Charlie"]
 BUDGET = 600.0            # virtual seconds an operation set may take (C04)
+STALL = float(os.environ.get("VERIF_STALL", "60"))              # virtual seconds without progress after which a run is given up as hanging (see Stall)
+STALL_LIVE = float(os.environ.get("VERIF_STALL_LIVE", "90"))   # ... when locks are taken and given back all the time (livelock)
 BACKOFF_DISTINCT = [2.5, 1.75, 3.25, 2.0, 3.75, 1.25, 2.75, 1.5, 3.5, 2.25, 3.0, 1.375, 2.625, 3.875, 1.625, 2.875]
 BACKOFF_EQUAL = [2.0, 2.0, 2.0, 2.0] + BACKOFF_DISTINCT
 
@@ -86,6 +88,32 @@ def jhash(x):
 
 def node_of(tag):
     return tag.split("#")[0]
+
+
+class Stall(Exception):
+    """raised by the Explorer (through `SimNet.run` / `settle`): NO PROGRESS -- nothing can be delivered, only timers
+    fire (lock pollers, `_lock_nodes` time-outs and their retries), a lock is held, and
+      how = "same": no operation has completed while one and the same acquisition of a lock has been held for STALL
+                    virtual seconds (a lock that is never given back: everybody polls it for ever), or
+      how = "live": no operation has completed for STALL_LIVE virtual seconds although locks are taken and given back
+                    all the time (operations time out on each other / on a lost lock and retry for ever).
+    Nothing in the code under test waits that long for anything but a lock (polls: 1 s, back-off: 1-4 s, connection
+    retries: 0.5 s; the longest such period seen in a run that DOES complete: 14 s in 630 000 thorough-tier schedules,
+    counted on every run under "~completed although no operation completed for ..."), so the run is judged as the
+    hang the 600 s budget would report -- but after 60 / 90 s: every cancelled `get_global_lock` leaves a poller behind
+    that fires once per second for ever, so the cost of a hanging schedule grows quadratically with the virtual time
+    it is given (a change that makes many schedules hang used to exhaust the wall budget without a verdict)."""
+
+    def __init__(self, lock, owner, since, now, how="same"):
+        self.lock, self.owner, self.since, self.now, self.how = lock, owner, since, now, how
+        if how == "same":
+            text = "no progress for %.0f virtual s: %s has been held by one and the same acquisition (operation %s) since " \
+                   "t=%.2f s, no operation completed since, nothing is deliverable, only timers fire" % (now - since, lock, owner, since)
+        else:
+            text = "no progress for %.0f virtual s: no operation has completed since t=%.2f s although nothing is deliverable and " \
+                   "only timers fire (lock time-outs, retries, pollers); locks are taken and given back all the time (now held: " \
+                   "%s by operation %s)" % (now - since, since, lock, owner)
+        Exception.__init__(self, text)
 
 
 # ---------------------------------------------------------------------------
@@ -329,8 +357,76 @@ class ReplayPolicy:
         return self.fifo.choose(exp, msgs, tim)
 
 
+class HoldPolicy:
+    """"slow grant": FIFO, except that ONE message is withheld -- and with it everything behind it on the same directed
+    connection -- until a time-out timer of `_lock_nodes` has fired: the `nth` call of `method` (`get_global_lock`) on
+    the directed connection `conn` ("Alice->Bob": a lock request of `_lock_nodes`), what = "request", or the answer to
+    that call on "Alice<-Bob", what = "reply" (the request is delivered, the lock granted, the grant is on the wire).
+    While it is held everything else is delivered (FIFO); timers fire only when nothing else can be delivered.  As
+    soon as the time-out has fired the message is released and the run goes on FIFO (linger: first everything the
+    time-out path sends on OTHER connections is delivered, then the held message).  `early` (as PhasesPolicy): the
+    message never appeared / had to be released before any time-out."""
+
+    def __init__(self, conn, what="reply", nth=0, linger=False, method="get_global_lock", rev=False):
+        a, b = conn.split("->")
+        self.conn, self.back, self.what, self.nth, self.linger, self.method = conn, "%s<-%s" % (a, b), what, nth, linger, method
+        self.base = FifoPolicy(rev)
+        self.state = 0            # 0 looking for the request, 1 waiting for its answer, 2 holding, 3 done
+        self.seen = set()
+        self.count = 0
+        self.reqid = self.held = self.mark = None
+        self.held_text = None
+        self.early = []
+
+    def finish(self):
+        if self.state != 3:
+            self.early.append((0, self.state))
+
+    def choose(self, exp, msgs, tim):
+        net = exp.net
+        if self.state == 0:
+            for cid, label, _op in msgs:
+                if label != self.conn:
+                    continue
+                ser = net._pipes[cid].head()[0]
+                if ser in self.seen:
+                    continue
+                self.seen.add(ser)
+                h = net.head(cid) or ""
+                if h.startswith("call:%s#" % self.method):
+                    self.count += 1
+                    if self.count - 1 == self.nth:
+                        if self.what == "request":
+                            self.state, self.held, self.mark, self.held_text = 2, cid, exp.step, label + " " + h
+                            break
+                        self.state, self.reqid = 1, h.split("#", 1)[1]
+                        return ("d", cid)
+        if self.state == 1:
+            for cid, label, _op in msgs:
+                if label == self.back and net.head(cid) in ("answer#" + self.reqid, "error#" + self.reqid):
+                    self.state, self.held, self.mark, self.held_text = 2, cid, exp.step, label + " " + net.head(cid)
+                    break
+        if self.state == 2:
+            rest = [m for m in msgs if m[0] != self.held]
+            timed_out = any("_lock_nodes" in d for d in exp.fired_since(self.mark))
+            if timed_out and not (self.linger and rest):
+                self.state = 3
+                return ("d", self.held)
+            if rest:
+                return self.base.choose(exp, rest, tim)
+            if tim:
+                return ("t", 0)
+            self.state = 3
+            self.early.append((0, 2))
+            return ("d", self.held)
+        return self.base.choose(exp, msgs, tim)
+
+
 def make_policy(spec):
     k = spec["kind"]
+    if k == "hold":
+        return HoldPolicy(spec["conn"], spec.get("what", "reply"), spec.get("nth", 0), spec.get("linger", False),
+                          spec.get("method", "get_global_lock"), spec.get("rev", False))
     if k == "fifo":
         return FifoPolicy(spec.get("rev", False))
     if k == "phases":
@@ -352,6 +448,8 @@ def spec_kind(spec):
         return "timer-race" + ("/lock_nodes" if spec.get("mode") == "lock_nodes" else "") + "+" + spec_kind(spec["base"])
     if k == "phases":
         return "delay%d" % max(1, len(spec["phases"]) // 2)
+    if k == "hold":
+        return "slow-grant/%s%s" % (spec.get("what", "reply"), "+linger" if spec.get("linger") else "")
     return k
 
 
@@ -425,6 +523,10 @@ class Explorer:
                 self.timer_steps.append(self.step)
         else:
             t, d, op = tim[act[1]]
+            if not msgs:
+                st = self.ex.stalled(t)
+                if st is not None:
+                    raise Stall(*st)
             self.cur = op
             self.fired.append((self.step, d, op))
             if "_lock_nodes" in d:
@@ -459,7 +561,8 @@ class Exec:
         self.case = case
         names = case.get("nodes", NODES)
         self.net = S.SimNet(names, max_qubits=case.get("max_qubits", 5), max_regs=case.get("max_regs", 100),
-                            rng=random.Random(0), host_order=case.get("host_order"))
+                            rng=random.Random(0), host_order=case.get("host_order"), bringup=case.get("bringup"))
+        self.bringup = case.get("bringup") is not None
         _patch(self.net._ns)
         net = self.net
         self.tags = list(names) + sorted({t for t, _ in case.get("conc", []) if t not in names})
@@ -485,6 +588,11 @@ class Exec:
             nd.virtQubits = v
         self.lock_name = {id(nd._lock): "node:" + n for n, nd in net.nodes.items()}
         self.owner = {}                                # lock name -> op ctx of the holder
+        self.acq_at = {}                               # id(lock) -> (virtual time of the acquisition that holds it now, name, lock)
+        self.last_done_at = 0.0                        # virtual time of the latest completion of a concurrent op
+        self.hold_gap = 0.0                            # longest time one acquisition was seen held without any completion (same conditions)
+        self.idle_gap = 0.0                            # longest time without a completion seen with a lock held and only timers firing
+        self.conc_mark = 0                             # len(lock_events) when the concurrent phase began
         self.waiters = collections.defaultdict(list)
         self.lock_events = []                          # [kind, lock, ctx, owner]
         self.nlock_events = 0
@@ -554,10 +662,12 @@ class Exec:
             self.waiters[name].append(self._ctx())
             return
         self.owner[name] = self._ctx()
+        self.acq_at[id(lock)] = (self.net.clock.seconds(), name, lock)
         if name.startswith("node:"):
             self.lock_events.append(["acq", name, self._ctx(), None])
 
     def on_release(self, lock):
+        self.acq_at.pop(id(lock), None)
         name = self._lname(lock)
         if name is None:
             return
@@ -569,8 +679,29 @@ class Exec:
                 self.foreign.append([name, ctx, own])
         if self.waiters[name]:
             self.owner[name] = self.waiters[name].pop(0)
+            self.acq_at[id(lock)] = (self.net.clock.seconds(), name, lock)
         else:
             self.owner.pop(name, None)
+
+    def stalled(self, now):
+        """arguments of Stall if the oldest acquisition still holding a lock is STALL virtual seconds old and no
+        operation has completed for as long ("same"), or a lock is held and no operation has completed for STALL_LIVE
+        virtual seconds ("live"); None otherwise.  Asked when a timer is about to fire because nothing is deliverable"""
+        held = [(t, name) for t, name, lock in self.acq_at.values() if lock.locked]
+        if not held:
+            return None
+        gap = now - self.last_done_at
+        if gap > self.idle_gap:
+            self.idle_gap = gap
+        t, name = min(held)
+        since = max(t, self.last_done_at)
+        if now - since > self.hold_gap:
+            self.hold_gap = now - since
+        if now - since >= STALL:
+            return name, self.owner.get(name), since, now, "same"
+        if gap >= STALL_LIVE:
+            return name, self.owner.get(name), self.last_done_at, now, "live"
+        return None
 
     # -- labels, references --------------------------------------------------------
 
@@ -709,7 +840,10 @@ class Exec:
             idx = next(i for i, x in enumerate(net.nodes[w[0]].virtQubits) if x is v)
             info[lab] = {"holder": w[0], "sim": v.simNode.name, "reg": reg, "num": v.num, "index": idx}
             regs[reg].append(w[0])
-        return {"labels": info, "regs": {r: sorted(h) for r, h in regs.items()}}
+        out = {"labels": info, "regs": {r: sorted(h) for r, h in regs.items()}}
+        if self.bringup:
+            out["missing"] = ["%s->%s" % e for e in net.missing_connections()]
+        return out
 
     def run_serial(self, order):
         """the concurrent ops one after the other in the given order (FIFO, settle after each)"""
@@ -742,6 +876,9 @@ class Exec:
             chains.setdefault(tag, []).append(i)
         fin = [Deferred() for _ in conc]
         t0 = net.clock.seconds()
+        self.last_done_at = t0
+        self.conc_mark = len(self.lock_events)
+        self.missing_at_issue = ["%s->%s" % e for e in net.missing_connections()] if self.bringup else []
 
         def start(i):
             tag, op = conc[i]
@@ -756,6 +893,7 @@ class Exec:
             self.results[i] = self.absorb_result(tag, op, r)
             self.done.add(i)
             self.completion_time[i] = net.clock.seconds() - t0
+            self.last_done_at = net.clock.seconds()
             ch = chains[tag]
             k = ch.index(i)
             if k + 1 < len(ch):
@@ -765,12 +903,24 @@ class Exec:
         for tag, ch in chains.items():
             start(ch[0])
         hung = None
-        try:
-            net.run(fin, scheduler=exp, max_virtual_time=BUDGET)
-        except S.Hang as h:
-            hung = {"unfired": h.unfired, "reason": h.reason, "locks": h.locks, "virtual_time": h.virtual_time,
-                    "timers": [t[1] for t in h.timers][:6]}
+        while True:
+            try:
+                net.run(fin, scheduler=exp, max_virtual_time=max(0.0, BUDGET - (net.clock.seconds() - t0)))
+            except S.Hang as h:
+                if self.bringup and h.reason.startswith("dead") and net.retry_deadlines():
+                    # bring-up mode: every operation waits, without a timer of its own, for a connection that is not
+                    # up yet -- the node's (background) connection retry is the only thing that can happen
+                    exp.attributed(None, net.fire_next_retry)
+                    continue
+                hung = {"unfired": h.unfired, "reason": h.reason, "locks": h.locks, "virtual_time": net.clock.seconds() - t0,
+                        "timers": [t[1] for t in h.timers][:6]}
+            except Stall as st:
+                hung = {"unfired": [i for i in range(len(conc)) if i not in self.done], "reason": str(st),
+                        "locks": net.lock_flags(), "virtual_time": net.clock.seconds() - t0,
+                        "timers": [t[1] for t in net.timers()][:6], "stalled": [st.lock, st.owner, st.since]}
+            break
         exp.absorb()
+        self.gaps_conc = (self.idle_gap, self.hold_gap)
         self.n_conc_actions = len(exp.actions)
         return hung
 
@@ -778,10 +928,14 @@ class Exec:
         """FIFO until quiescent (attribution continues); False if timers re-arm for ever"""
         if self.exp is not None:
             self.exp.policy = FifoPolicy()
-            ok = self.net.settle(scheduler=self.exp, max_virtual_time=BUDGET)
+            try:
+                # (bring-up mode: SimNet.settle leaves timers alone by default; quiescence needs them fired)
+                ok = self.net.settle(scheduler=self.exp, max_virtual_time=BUDGET, fire_timers=True)
+            except Stall:
+                ok = False            # timers re-arm for ever around a lock that is never released
             self.exp.absorb()
             return ok
-        return self.net.settle(max_virtual_time=BUDGET)
+        return self.net.settle(max_virtual_time=BUDGET, fire_timers=True)
 
     # -- observation ---------------------------------------------------------
 
@@ -932,8 +1086,31 @@ def run_schedule(case, spec):
         "obs": obs, "prefix_actions": t_pre, "early": list(getattr(pol, "early", [])),
         "done_at": list(getattr(pol, "done_at", [])),
         "lock_owner": {k: v for k, v in ex.owner.items()}, "done": sorted(ex.done),
+        "bringup": {"missing_at_issue": ex.missing_at_issue, "issued_at": case["bringup"].get("at"),
+                    "connection_attempts": [[round(t, 3), a, b, ok] for t, a, b, ok in ex.net.connection_log]} if ex.bringup else None,
+        "lock_takers": lock_takers(ex), "idle_gap": ex.gaps_conc[0], "hold_gap": ex.gaps_conc[1],
     }
     return rec
+
+
+def lock_takers(ex):
+    """node lock -> the operations (indices; -1 = unattributed) that acquired it during the concurrent phase"""
+    out = collections.defaultdict(set)
+    for kind, name, ctx, _own in ex.lock_events[ex.conc_mark:]:
+        if kind == "acq":
+            out[name].add(ctx if isinstance(ctx, int) else -1)
+    return {k: sorted(v) for k, v in out.items()}
+
+
+def uncontended_leak(rec):
+    """True iff a node lock is stuck (held when the run was given up / at idle) and NO stuck node lock was ever taken
+    by more than one operation during the concurrent phase: whatever leaked it, it was not a race between two
+    operations for that lock (the open findings lock-nodes-timeout:* need such a race: the cancelled request is
+    still polling because ANOTHER operation holds the lock)"""
+    flags = rec["hang"]["locks"] if rec.get("hang") else rec["obs"]["locks"]
+    stuck = ["node:" + n for n, f in flags.items() if f["node"]]
+    takers = rec.get("lock_takers", {})
+    return bool(stuck) and all(len(takers.get(l, [])) <= 1 for l in stuck)
 
 
 def orders(conc):
@@ -959,7 +1136,7 @@ _REF_CACHE = {}
 
 def serial_refs(case):
     """[(order, obs or None, hang or None)] -- the REAL code, sequentially"""
-    key = jkey({k: case.get(k) for k in ("nodes", "max_qubits", "host_order", "prefix", "conc", "coin")})
+    key = jkey({k: case.get(k) for k in ("nodes", "max_qubits", "host_order", "prefix", "conc", "coin", "bringup")})
     if key in _REF_CACHE:
         return _REF_CACHE[key]
     out = []
@@ -1195,6 +1372,9 @@ def classify(prop, ds, rec, symptom):
     if rec["foreign"]:
         return "lock-nodes-timeout:foreign-release"
     if rec["timeouts"] and prop == "C04":
+        if uncontended_leak(rec):
+            # the time-out path itself loses a lock: nobody else ever asked for it
+            return "lock-nodes-timeout:lock-lost-without-contention"
         return "lock-nodes-timeout:cancelled-request-leak"
     rel, who = relation(ds, unfinished)
     if prop == "C04" and rec.get("hang") and rel == "same-handle" and rec["hang"]["timers"] \
@@ -1400,6 +1580,8 @@ def spec_size(spec):
         return 5 + len(spec["at"]) + min(spec["at"] or [0]) + spec_size(spec["base"])
     if spec["kind"] == "fifo":
         return 0
+    if spec["kind"] == "hold":
+        return 2 + (1 if spec.get("linger") else 0) + (1 if spec.get("rev") else 0) + spec.get("nth", 0)
     return 1000
 
 
@@ -1407,12 +1589,21 @@ def judge_into(out, prop, case, ds, spec, rec, refs, label):
     """judge one executed schedule for `prop`, record counts and violations"""
     out.n += 1
     out.deliveries += rec["nactions"] + rec["prefix_actions"]
-    h = jhash([case["conc"], case.get("host_order"), case.get("backoff", [0])[:2], rec["actions"]])
+    h = jhash([case["conc"], case.get("host_order"), case.get("backoff", [0])[:2], rec["actions"]] +
+              ([case["bringup"]] if case.get("bringup") else []))
     new = h not in out.hashes
     out.hashes.add(h)
     out.counts["%s|%s" % (label, spec_kind(spec))] += 1
     if rec["completed"]:
         out.completed += 1
+        if os.environ.get("VERIF_SCHED_GAPS") and rec.get("idle_gap", 0.0) >= 10:
+            with open(os.environ["VERIF_SCHED_GAPS"], "a") as f:
+                f.write(jkey({"case": case, "spec": spec, "idle_gap": rec["idle_gap"], "hold_gap": rec["hold_gap"],
+                              "vt": rec["virtual_time"], "timeouts": len(rec["timeouts"]), "label": label}) + "\n")
+        for what, g in (("with locks held", rec.get("idle_gap", 0.0)), ("with ONE lock acquisition held", rec.get("hold_gap", 0.0))):
+            if g >= 10:
+                out.counts["~completed although no operation completed for %s virtual s %s (only timers firing)" % (
+                    ">= 100" if g >= 100 else ">= 60" if g >= 60 else ">= 30" if g >= 30 else ">= 20" if g >= 20 else ">= 10", what)] += 1
     if rec["timeouts"]:
         out.counts["~lock_nodes time-out path taken"] += 1
     if rec["foreign"]:
@@ -1452,11 +1643,18 @@ def judge_into(out, prop, case, ds, spec, rec, refs, label):
             fails.append((classify_set("C03", ds, rec, sym), sym, "outcomes %s; %s" % (rec["obs"]["outcomes"], text)))
     for key, sym, what in fails:
         kinds = " || ".join("%s@%s %s" % (d["variant"], d["tag"], jkey(d["op"])) for d in ds)
+        if rec.get("bringup"):
+            b = rec["bringup"]
+            kinds += "; issued during bring-up while %s not up yet (came up at %s)" % (
+                ", ".join(b["missing_at_issue"]) or "nothing",
+                ", ".join("%s->%s t=%.2f s" % (a, t_, tm) for tm, a, t_, ok in b["connection_attempts"]
+                          if ok and "%s->%s" % (a, t_) in b["missing_at_issue"]) or "never")
         replay = {"case": case, "spec": spec, "actions": rec["actions"], "symptom": sym,
                   "observed": {"outcomes": rec["obs"]["outcomes"], "wf": rec["obs"]["wf"], "completed": rec["completed"],
                                "locks_at_idle": {n: f for n, f in rec["obs"]["locks"].items()
                                                  if f["node"] or f["qubits"] or f["waiting"]},
                                "lock_nodes_timeouts": rec["timeouts"], "foreign_releases": rec["foreign"],
+                               "bringup": rec.get("bringup"), "gave_up": (rec.get("hang") or {}).get("reason"),
                                "list_mutations_without_node_lock": rec["unguarded"][:6],
                                "backoff_draws": rec["backoff_log"], "coins": rec["coin_trace"]}}
         size = (len(case["conc"]), len(case["prefix"]), spec_size(spec), len(rec["actions"]))
@@ -1514,7 +1712,82 @@ def run_task(task):
     return out
 
 
+def _run_slow_grant(task, out):
+    """directed family "slow grant" (ONE two-qubit gate, no contention): for each remote node whose lock
+    `_lock_nodes` requests, the request / the reply (lock granted, grant on the wire) is held past the back-off
+    time-out (scripted: the smallest and the largest draw), then the network is fast again"""
+    prop, ps, label = task["prop"], task["ps"], task["label"]
+    base = dict(task["case"])
+    base["conc"] = task["conc"]
+    ds = [op_desc(ps, tag, op) for tag, op in base["conc"]]
+    d = ds[0]
+    remote = sorted(d["foot"] - {d["node"]})
+    nodes = base.get("nodes", NODES)
+    for host_order in (None, list(reversed(nodes))):
+        for draw in (1.0, 4.0):
+            case = dict(base)
+            if host_order:
+                case["host_order"] = host_order
+            case["backoff"] = [draw] + BACKOFF_DISTINCT
+            refs = serial_refs(case) if prop == "C03" else None
+            lab = "%s%s|first back-off draw %.0f s" % (label, "|rev-host-order" if host_order else "", draw)
+            for peer in remote:
+                for what in ("reply", "request"):
+                    for nth in ((0, 1) if task.get("deep") else (0,)):
+                        for linger in (False, True):
+                            spec = {"kind": "hold", "conn": "%s->%s" % (d["node"], peer), "what": what, "nth": nth,
+                                    "linger": linger}
+                            rec = run_schedule(case, spec)
+                            judge_into(out, prop, case, ds, spec, rec, refs, lab)
+                            if rec["early"]:
+                                out.counts["~slow grant: the held message never appeared / no time-out fired while it was held"] += 1
+    if len(out.samples) < 1:
+        out.samples.append({"placement": base.get("name"), "conc": base["conc"], "schedules": out.n, "family": "slow-grant"})
+
+
+def _run_conn_wait(task, out):
+    """directed family "operations waiting for one missing connection" (partial bring-up): the operations are
+    issued while a directed connection they all need is still being retried; it comes up while they wait"""
+    prop, ps, label = task["prop"], task["ps"], task["label"]
+    rng = random.Random(task["seed"])
+    case = dict(task["case"])
+    case["conc"] = task["conc"]
+    case["backoff"] = BACKOFF_DISTINCT
+    ds = [op_desc(ps, tag, op) for tag, op in case["conc"]]
+    nops = len(case["conc"])
+    refs = serial_refs(case) if prop == "C03" else None
+
+    def go(spec):
+        rec = run_schedule(case, spec)
+        judge_into(out, prop, case, ds, spec, rec, refs, label)
+        return rec
+    fifo = go({"kind": "fifo"})
+    go({"kind": "fifo", "rev": True})
+    others = lambda i: [j for j in range(nops) if j != i]
+    for i in range(nops):
+        # op i gets k messages ahead, then the others run as far as they can (they reach their wait first)
+        for k in range(0, task.get("hold", 4)):
+            rec = go({"kind": "phases", "phases": [[i, k]], "tail": others(i) + [i]})
+            if [c for ph, c in rec["early"] if ph == 0]:
+                break
+    specs = []
+    ts = fifo["timer_steps"]
+    for s_ in (rng.sample(ts, task.get("timers", 6)) if len(ts) > task.get("timers", 6) else ts):
+        specs.append({"kind": "timer", "base": {"kind": "fifo"}, "at": [s_], "mode": "one"})
+    for s_ in range(task.get("pct", 4)):
+        specs.append({"kind": "pct", "seed": rng.randrange(1 << 30), "depth": 1 + s_ % 3, "len": 40, "tp": 0.05 if s_ % 4 == 3 else 0.0})
+    for spec in specs:
+        go(spec)
+    if len(out.samples) < 1:
+        out.samples.append({"placement": case.get("name"), "conc": case["conc"], "schedules": out.n, "family": "conn-wait",
+                            "bringup": case.get("bringup")})
+
+
 def _run_task(task, out):
+    if task.get("family") == "slow-grant":
+        return _run_slow_grant(task, out)
+    if task.get("family") == "conn-wait":
+        return _run_conn_wait(task, out)
     prop, ps, label = task["prop"], task["ps"], task["label"]
     rng = random.Random(task["seed"])
     base = dict(task["case"])
@@ -1593,11 +1866,87 @@ def placement_state(case):
     return ex.pre_state()
 
 
+def conn_wait_cases():
+    """partial bring-up (`SimNet(..., bringup=spec)`: the nodes start one after the other, a connect attempt towards a
+    peer that does not listen yet is refused and retried every conn_retry_time = 0.5 s by the node itself): the
+    placement is built and the operations are issued while directed connections are still missing.
+    -> [(case, [(node, op)])]; every listed operation needs -- itself or through the node it calls -- a missing
+    connection and waits for it in `get_connection`; no prefix operation needs one."""
+    prefix = [["new", A, "a0"], ["new", A, "a1"], ["new", A, "a2"], ["new", C, "u"], ["send", "u", A],
+              ["new", A, "v"], ["send", "v", C], ["new", B, "b0"], ["new", C, "c0"], ["g1", "a0", "H"], ["g1", "u", "H"]]
+    ops = [(A, ["send", "a0", B]),            # sender waits before taking any lock
+           (A, ["send", "a1", B]),
+           (A, ["send", "u", B]),             # u is simulated at Charlie
+           (A, ["g2", "a2", "u", "cnot"]),    # merge at Alice; the update broadcast needs Bob (locks of Alice, Charlie held)
+           (B, ["send", "b0", A]),            # arrival: Alice's add_qubit needs her connection to Bob (Bob's lock held)
+           (C, ["send", "v", B]),             # v is simulated at Alice: her transfer_qubit needs Bob (locks of Charlie, Alice held)
+           (C, ["g2", "c0", "v", "cnot"])]    # merge at Charlie; the update broadcast needs Bob
+    out = []
+    # Alice 0, Charlie 0.1, Bob 0.55; program at 0.6: only Alice -> Bob is missing (her retry at 0.5 was refused; up at 1.0)
+    out.append(({"name": "bringup:A->B", "nodes": NODES, "max_qubits": 5, "prefix": prefix,
+                 "bringup": {"start": {A: 0.0, C: 0.1, B: 0.55}, "at": 0.6}}, ops))
+    # Charlie 0, Alice 0.1, Bob 0.75; program at 0.75: Charlie -> Bob (up at 1.0) and Alice -> Bob (up at 1.1) are missing
+    out.append(({"name": "bringup:late-Bob", "nodes": NODES, "max_qubits": 5, "prefix": prefix,
+                 "bringup": {"start": {C: 0.0, A: 0.1, B: 0.75}, "at": 0.75}}, ops + [(C, ["send", "c0", B])]))
+    return out
+
+
+def family_tasks(prop, thorough, rng, placed):
+    """the directed families (run first, never skipped for time).  placed: [(case, ps, ops)] of the placements"""
+    tasks = []
+    seen = set()
+    # ---- slow grant: ONE two-qubit gate that needs a remote node lock -----------------------------------------
+    placed = list(placed)
+    have = {c["name"] for c, _, _ in placed}
+    for name, (prefix, size) in placements().items():
+        if name not in have and size <= 1:          # every merge case of a two-qubit gate, in the quick tier too
+            case = {"name": name, "nodes": NODES, "max_qubits": 5, "prefix": prefix}
+            ps = placement_state(case)
+            placed.append((dict(case, coin=coins_for(ps["labels"], rng)), ps, all_ops(ps, case["nodes"], self_send=False)))
+    for case, ps, ops in placed:
+        for x in ops:
+            if x[1][0] != "g2":
+                continue
+            d = op_desc(ps, x[0], x[1])
+            if len(d["foot"]) < 2:
+                continue
+            sig = pair_signature(ps, x, x, thorough)
+            if sig in seen:
+                continue
+            seen.add(sig)
+            tasks.append({"prop": prop, "case": case, "ps": ps, "conc": with_tags([x]), "seed": rng.randrange(1 << 30),
+                          "label": "slow grant|%s|%s" % (d["variant"], case["name"]), "family": "slow-grant",
+                          "deep": thorough, "cost": 10 ** 6})
+    # ---- concurrent operations waiting for one missing connection --------------------------------------------------
+    for case, ops in conn_wait_cases():
+        ps = placement_state(case)
+        if set(ps.get("missing", [])) == set():
+            raise core.MachineryError("bring-up placement %s: no connection is missing when the operations are issued" % case["name"])
+        case = dict(case, coin=coins_for(ps["labels"], rng))
+        sets = [list(c) for c in itertools.combinations(ops, 2)]
+        triples = [list(c) for c in itertools.combinations(ops, 3)]
+        sets += triples if thorough else rng.sample(triples, min(len(triples), 10))
+        for chosen in sets:
+            labs = [l for _, o in chosen for l in (o[1:3] if o[0] == "g2" else o[1:2])]
+            if len(set(labs)) != len(labs):
+                continue                     # different handles only
+            conc = with_tags(chosen)
+            ds = [op_desc(ps, t, o) for t, o in conc]
+            tasks.append({"prop": prop, "case": case, "ps": ps, "conc": conc, "seed": rng.randrange(1 << 30),
+                          "label": "waiting for a missing connection|%s|%s|%s" % (
+                              " || ".join(sorted(d["variant"] for d in ds)), relation(ds)[0], case["name"]),
+                          "family": "conn-wait", "hold": 6 if thorough else 4, "timers": 12 if thorough else 6,
+                          "pct": 12 if thorough else 4, "cost": 10 ** 6})
+    return tasks
+
+
 def plan(prop, thorough, rng, scale=1.0):
     """the list of tasks of one check run"""
     tasks = []
     seen = set()
     cases = []
+    placed = []
+    frng = random.Random(jhash([str(x) for x in rng.getstate()[1][:8]]))     # (the families draw nothing from `rng`)
     for name, (prefix, size) in placements().items():
         if size == 0 or (thorough and size == 1):
             cases.append(({"name": name, "nodes": NODES, "max_qubits": 5, "prefix": prefix}, None))
@@ -1610,6 +1959,7 @@ def plan(prop, thorough, rng, scale=1.0):
             ops = [x for x in ops if not (x[1][0] == "meas" and x[1][2] == 1)]
         selfsend = [x for x in ops if x[1][0] == "send" and x[1][2] == node_of(x[0])]
         ops = [x for x in ops if x not in selfsend]
+        placed.append((case, ps, ops))
         # single operations (C04: "operations addressed to the issuing node itself"; timer races of one op)
         for x in ops + selfsend:
             sig = "solo|" + pair_signature(ps, x, x, thorough)
@@ -1662,7 +2012,7 @@ def plan(prop, thorough, rng, scale=1.0):
                           "label": "%dops|%s|%s" % (len(conc), relation(ds)[0], case["name"]), "grid": 0, "timer": True,
                           "pct": 16 if thorough else 8, "rand": 8 if thorough else 4, "cap": 40 if thorough else 16,
                           "host_orders": False, "cost": 40})
-    return tasks
+    return family_tasks(prop, thorough, frng, placed) + tasks
 
 
 def run_tasks(tasks, wall_budget, procs=None):
@@ -1941,9 +2291,18 @@ def check(ctx, prop):
                 "delay injection at bound %d (hold op q after k messages until op p has had j deliveries, all (j,k), both "
                 "roles), FIFO in both directions, a pending timer fired before each message (and until the _lock_nodes "
                 "time-out fires), both host orders, distinct and equal back-off draws; %s sets of 3-4 operations under PCT / "
-                "random priorities; directed witnesses of the known findings.  Oracle %s" % (
+                "random priorities; directed witnesses of the known findings; directed family 'slow grant': ONE two-qubit gate "
+                "in every merge case that needs a remote node lock (all placements but f12-4, in both tiers), each lock request of "
+                "_lock_nodes / the grant on its way back held past the back-off time-out (scripted smallest 1 s and largest 4 s "
+                "draw, both host orders), then a fast network; directed family 'operations waiting for one missing "
+                "connection': partial bring-up (SimNet bring-up mode: Alice->Bob, or Alice->Bob and Charlie->Bob, still "
+                "refused/retrying), every pair and %s triples of sends / merging gates / arrivals on different handles that "
+                "wait in get_connection for the peer, FIFO both ways, each operation ahead by 0-%d messages, timer races, PCT; "
+                "a run in which for %d virtual s (%d s if locks are taken and released all the time) nothing is deliverable, only "
+                "timers fire, a lock is held and no operation completes is given up as hanging.  Oracle %s" % (
                     [n for n, (_, s) in placements().items() if s == 0 or ctx.thorough] + ["capacity"],
-                    2 if ctx.thorough else 1, "sampled",
+                    2 if ctx.thorough else 1, "sampled", "all" if ctx.thorough else "10 sampled", 5 if ctx.thorough else 3,
+                    STALL, STALL_LIVE,
                     "C03: outcomes + snapshot + joint stabilizer state (per logical qubit) equal those of some sequential "
                     "execution of the same operations on the real code; bookkeeping well formed at quiescence" if prop == "C03"
                     else "C04: every client Deferred fires within %d virtual s and no node / qubit lock is held at idle" % BUDGET))
